@@ -16,14 +16,15 @@ it is visited is an explicit parameter (`Orders`): `from.Services`, `from.Types`
 finds in the working tree.
 
 Quirks of the code that exists, reproduced on purpose:
-  * service diagnostics ("deleting service", "removing method") carry only the *base name* of the
-    file: `service` uses `filepath.Base(from.File)` for a deleted service, and `function`
-    relativises an already relative path a second time, which fails and falls back to
-    `filepath.Base`; struct diagnostics carry the path relative to the git directory;
+  * the "deleting service" diagnostic carries only the *base name* of the file (`service` uses
+    `filepath.Base(from.File)`, pinned by internal/git/git_test.go; known finding D31); "removing
+    method" and the struct diagnostics carry the path relative to the git directory
+    (the method half was repaired by /repo 6601ea9, finding D35);
   * a deleted struct (or a struct replaced by a non-struct of the same name) is silent;
-  * a file whose change is a go-git *rename* (`Modify` with the old name) is compiled under its
-    OLD name in the NEW tree, which fails: the whole run aborts (exit 1, nothing printed);
-  * added files are skipped (`from == nil`), deleted files are compared against an empty module.
+  * added files are skipped (`from == nil`), deleted files are compared against an empty module,
+    and so is the OLD path of a file go-git reports as renamed (`changeOf`; repaired by /repo
+    623e258, finding D30 — before, the old path was compiled in the new tree and the run aborted);
+  * a compile error of either version aborts the run (exit 1, nothing printed): `run … = none`.
 
 Core-only (linked into / interpreted by the driver).
 -/
@@ -115,7 +116,7 @@ def lookupField (fs : List Field) (id : Int) : Option Field := (fs.filter (fun f
 def compareFunctions (file : Path) (svc : String) (order : List String) (fromFns toFns : List String) :
     List Diag :=
   (order.filter (fun n => fromFns.contains n)).filterMap fun n =>
-    if toFns.contains n then none else some (.removedMethod (baseName file) svc n)
+    if toFns.contains n then none else some (.removedMethod file svc n)
 
 /-- compare.go `service`. -/
 def compareService (file : Path) (fnOrder : String → List String) (to : List Service) (s : Service) :
@@ -186,6 +187,25 @@ def run (o : Path → Orders) (old new : Tree) : List Change → Option (List Di
         match run o old new cs with
         | none => none
         | some ds => some (compareModules (o c.file) frm to ++ ds)
+
+/-- One entry of go-git's HEAD~..HEAD tree diff that has a from-side .thrift file: its old
+name and its new name (`none` = deleted; a name different from the old one = a rename, detected
+or merely paired by go-git). Added files have no from-side and never get here. -/
+structure DiffEntry where
+  src : Path
+  dst : Option Path
+deriving DecidableEq, Repr
+
+/-- `findChangedThrift`: a change is a `Modify` only when the file keeps its name; the old path of
+a renamed file was deleted. -/
+def changeOf (e : DiffEntry) : Change :=
+  match e.dst with
+  | some d => if d = e.src then ⟨e.src, .modify⟩ else ⟨e.src, .delete⟩
+  | none => ⟨e.src, .delete⟩
+
+/-- `git.Compare` from the tree diff on. -/
+def thriftbreak (o : Path → Orders) (old new : Tree) (diff : List DiffEntry) : Option (List Diag) :=
+  run o old new (diff.map changeOf)
 
 /-- What main.go prints on stdout. -/
 def printed : Option (List Diag) → List Diag
